@@ -11,6 +11,13 @@ OddMods(psks, n) ==
   ELSE LET rest == OddMods(psks, n + 1) IN
        IF n \in psks THEN "psk0" \o ToString(n) \o (IF rest = "" THEN "" ELSE "+" \o rest) ELSE rest
 
+RECURSIVE CanonMods(_, _)
+CanonMods(psks, n) ==
+  IF n > 4 THEN ""
+  ELSE LET rest == CanonMods(psks, n + 1) IN
+       IF n \in psks THEN "psk" \o ToString(n) \o (IF rest = "" THEN "" ELSE "+" \o rest) ELSE rest
+CanonNameOf(pat, psks) == "Noise_" \o pat \o CanonMods(psks, 0) \o "_25519_ChaChaPoly_BLAKE2b"
+
 (* e.g. OddNameOf("XX", {0,3}) = "Noise_XXpsk00+psk03_25519_ChaChaPoly_BLAKE2b" *)
 OddNameOf(pat, psks) == "Noise_" \o pat \o OddMods(psks, 0) \o "_25519_ChaChaPoly_BLAKE2b"
 =============================================================================
